@@ -53,7 +53,7 @@ func TestVerif_C16(t *testing.T) {
 	run.Assume("expected decision = wyhash(traceID, 34527861234) <= MaxUint64/SamplingRate, restated in the harness from the StressRelief documentation/code constant")
 	run.Assume("stress relief is switched on all nodes between phases while no client request is outstanding and no peer request is queued")
 
-	run.Cases("stress", run.N(4, 40), func(ci int, rng *verifkit.Rand) {
+	run.Cases("stress", run.N(4, 300), func(ci int, rng *verifkit.Rand) {
 		nNodes := 2 + rng.Intn(2)
 		rate := verifkit.Pick(rng, uint64(1), 2, 2, 3, 5)
 		batchTimeout := time.Duration(rng.Range(5, 50)) * time.Millisecond
